@@ -1,5 +1,6 @@
 mod choices;
 mod core;
+mod gen_clvm;
 mod gen_value;
 mod known;
 mod orch;
